@@ -334,11 +334,16 @@ Definition mon_C18 (b : base) (m : mst) (te : Z * ev) : list alarm :=
       (if zb il then
          when (negb (lid =? i)) 1803 ++
          when (negb (tok =? io_tok x)) 1804 ++
-         match latest_by (b_hist b) k i with
-         | Some v =>
-             (* the revision of its latest successful write: the newest version it wrote, or, while
-                that write's acknowledgement is still in flight, the one before *)
-             when (negb ((rev =? ver_rev v) || (zmem rev (map snd (io_views x)) && (ver_exp v =? rev)))) 1805
+         (* the revision of its latest successful (acknowledged) write of the running term: the newest
+            (token, revision) view carrying the term token *)
+         match find (fun v => fst v =? io_tok x) (io_views x) with
+         | Some (_, r) =>
+             (* ... or a newer version of this term that the instance wrote and whose answer came at the very instant of
+                the loop's time-out (the loop may or may not have looked at it) *)
+             when (negb ((rev =? r) ||
+                         ((r <? rev) && match find_ver (b_hist b) k rev with
+                                        | Some v => (ver_author v =? i) && (tok_of b (ver_val v) =? io_tok x)
+                                        | None => false end))) 1805
          | None => [1805]
          end
        else []) ++
